@@ -11,6 +11,7 @@ import (
 	"sync"
 	"sync/atomic"
 	"time"
+	"verif/harness/ref/refpath"
 
 	"github.com/anishathalye/porcupine"
 	"golang.org/x/mod/sumdb"
@@ -34,11 +35,38 @@ var c14Mods = [][2]string{
 	{"example.com/a", "v1.0.0"}, {"example.com/B", "v1.0.0"}, {"github.com/Azure/azure-sdk", "v1.2.3"}, {"example.com/c/v2", "v2.0.0"},
 	{"example.com/UPPER/Case", "v0.1.0"}, {"gopkg.in/yaml.v3", "v3.0.1"}, {"example.com/d", "v1.0.0-pre.1"}, {"example.com/e", "v0.0.0-20200101000000-abcdef123456"},
 	{"example.com/f", "v2.0.0+incompatible"}, {"rsc.io/Quote", "v1.5.2"}, {"example.com/g", "v1.0.1"}, {"example.com/h", "v1.0.2"},
+	{"example.com/i", "v0.0.0-20200214102310-6d5b0d4f3e5d"}, {"example.com/j", "v1.0.0-prod"}, {"example.com/k/v2", "v2.1.0-rc.m"}, {"example.com/l", "v1.0.1-go.mod"},
 }
 
 var c14Private = [][2]string{{"corp.example.com/priv", "v1.0.0"}, {"corp.example.com/priv/sub", "v1.0.0"}, {"x.internal.example/tool", "v0.1.0"}, {"corp.example.com", "v1.0.0"}}
 
-const c14Patterns = "corp.example.com,*.internal.example/tool"
+// c14PatternLists all make exactly the c14Private paths private ("any path prefix of target matches
+// one of the glob patterns ... ignores any empty or malformed patterns in the list"); c14PatternsFor
+// confirms that with the harness's own reading before a list is used.
+var c14PatternLists = []string{
+	"corp.example.com,*.internal.example/tool",
+	"[corp,corp.example.com,a[b,*.internal.example/tool",
+	",corp.example.com,,*.internal.example/tool,",
+	"other.example.org/x,c?rp.example.com/,x.internal.*",
+	"x.internal.example/tool\\,corp.example.com,[,?.internal.example/tool",
+	"*.example.com/nothing/here,corp.example.[c]om,[^a-w].internal.example",
+}
+
+func c14PatternsFor(c *mon.Ctx, i int) string {
+	pl := c14PatternLists[i%len(c14PatternLists)]
+	for _, m := range c14Private {
+		if r := refpath.MatchPrefix(pl, m[0]); !r.Match || !r.SameCount || !r.Specified {
+			c.Inconclusive("harness pattern list " + pl + " misjudges " + m[0])
+		}
+	}
+	for _, m := range c14Mods {
+		if r := refpath.MatchPrefix(pl, m[0]); r.Match || !r.Specified {
+			c.Inconclusive("harness pattern list " + pl + " misjudges " + m[0])
+		}
+	}
+	c.Class(fmt.Sprintf("pattern-list=%d", i%len(c14PatternLists)))
+	return pl
+}
 
 // c14Server adapts the repository's own sumdb.Server (in process) to the world's Remote.
 func c14Server(key *world.Key) func(client int, path string) ([]byte, error) {
@@ -86,9 +114,13 @@ func c14Run(c *mon.Ctx, key *world.Key, caseID, policy string) {
 	w.Remote = c14Server(key)
 	K := []int{1, 2, 4}[r.IntN(3)]
 	G := []int{2, 4, 8, 16}[r.IntN(4)]
-	nMods := 3 + r.IntN(10)
+	nMods := 3 + r.IntN(len(c14Mods)-2)
 	h := []int{1, 2, 8}[r.IntN(3)]
 	usePatterns := r.IntN(2) == 0
+	patterns := ""
+	if usePatterns {
+		patterns = c14PatternsFor(c, r.IntN(len(c14PatternLists)))
+	}
 	perG := 3 + r.IntN(5)
 	switch policy {
 	case "install-race":
@@ -98,7 +130,10 @@ func c14Run(c *mon.Ctx, key *world.Key, caseID, policy string) {
 	case "stampede":
 		K, G = 1, 4+r.IntN(9)
 	}
-	mods := append([][2]string(nil), c14Mods[:nMods]...)
+	var mods [][2]string
+	for _, i := range r.Perm(len(c14Mods))[:nMods] {
+		mods = append(mods, c14Mods[i])
+	}
 	info := map[string]any{"policy": policy, "clients": K, "goroutines": G, "modules": nMods, "height": h, "patterns": usePatterns}
 
 	// ---- schedule policy ----------------------------------------------------------------------
@@ -181,7 +216,7 @@ func c14Run(c *mon.Ctx, key *world.Key, caseID, policy string) {
 		cl := sumdb.NewClient(w.Client(k + 1))
 		cl.SetTileHeight(h)
 		if usePatterns {
-			cl.SetGONOSUMDB(c14Patterns)
+			cl.SetGONOSUMDB(patterns)
 		}
 		w.Register(cl, k+1)
 		clients[k] = cl
@@ -467,7 +502,7 @@ func c14Skipped(c *mon.Ctx, key *world.Key) {
 		w.Remote = c14Server(key)
 		world.Activate(w)
 		cl := sumdb.NewClient(w.Client(1))
-		cl.SetGONOSUMDB(c14Patterns)
+		cl.SetGONOSUMDB(c14PatternsFor(c, i))
 		var wg sync.WaitGroup
 		var bad atomic.Int64
 		for g := 0; g < 8; g++ {
